@@ -236,9 +236,27 @@ func ruleStmtTable(c *Ctx, r *Report, rule string, spec *langSpec) {
 
 // ruleSemicolon: one optional ';' after each statement, in both statement loops.
 func ruleSemicolon(c *Ctx, r *Report, rule string) {
-	r.rule(rule, 3, "p.match(tSEMICOLON) occurs exactly twice in the parser: once per iteration of the toplevel statement loop and of the block statement loop, right after the statement; ';' has no other role")
+	r.rule(rule, 3, "every statement is followed by exactly one optional-semicolon match: either each statement loop (toplevel, block) matches tSEMICOLON once after decl(), or decl() itself does so as its last step; p.match(tSEMICOLON) occurs nowhere else, and ';' has no role in expressions")
 	total := 0
-	inLoops := 0
+	// decl() may own the terminator: one unconditional match as its last toplevel statement
+	declSemi := 0
+	if _, dd := c.find("decl"); dd != nil {
+		n := len(dd.Body.List)
+		for i, st := range dd.Body.List {
+			if es, ok := st.(*ast.ExprStmt); ok {
+				if call, ok := es.X.(*ast.CallExpr); ok {
+					if tok, ok := c.matchTok(call, "parser.match"); ok && tok == "tSEMICOLON" {
+						if i == n-1 {
+							declSemi++
+						} else {
+							declSemi += 10 // not the last step
+						}
+					}
+				}
+			}
+		}
+	}
+	loops, loopsOK := 0, 0
 	for _, it := range c.sortedDecls() {
 		obj, fd := it.obj, it.fd
 		if obj.Pkg() == nil || obj.Pkg().Path() != bclPath || fd.Body == nil {
@@ -272,17 +290,22 @@ func ruleSemicolon(c *Ctx, r *Report, rule string) {
 				}
 			}
 			if declAt >= 0 {
-				if semis == 1 && semiAt > declAt {
-					inLoops++
-					r.ok(rule, funcNameOfDecl(c, fd)+"/loop", "decl(p); …; p.match(tSEMICOLON)")
+				loops++
+				if semis+declSemi == 1 && (semis == 0 || semiAt > declAt) {
+					loopsOK++
+					r.ok(rule, funcNameOfDecl(c, fd)+"/loop", "one optional ';' per statement")
 				} else {
-					r.bad(rule, funcNameOfDecl(c, fd)+"/loop", fmt.Sprintf("a statement loop has %d optional-semicolon matches after its statement (must be exactly one)", semis), c.pos(fs.Pos()))
+					r.bad(rule, funcNameOfDecl(c, fd)+"/loop", fmt.Sprintf("a statement loop has %d optional-semicolon matches per statement (must be exactly one)", semis+declSemi), c.pos(fs.Pos()))
 				}
 			}
 			return true
 		})
 	}
-	r.check(total == 2 && inLoops == 2, rule, "sites", "2 sites, both in statement loops", fmt.Sprintf("%d sites match ';' (%d of them in statement loops); exactly the two statement loops may", total, inLoops), "")
+	wantTotal := declSemi
+	if declSemi == 0 {
+		wantTotal = loops
+	}
+	r.check(loops == 2 && loopsOK == 2 && total == wantTotal, rule, "sites", fmt.Sprintf("%d sites, one optional ';' after every statement", total), fmt.Sprintf("%d sites match ';' (%d statement loops, %d of them with exactly one match per statement); a ';' may be matched only once after each statement", total, loops, loopsOK), "")
 	// ';' has no parse rule
 	rows, _, err := c.rulesTable()
 	if err == nil {
@@ -324,88 +347,71 @@ func ruleSync(c *Ctx, r *Report, rule string, spec *langSpec) {
 		r.bad(rule, "sync", "function not found", "")
 		return
 	}
-	ok := len(fd.Body.List) == 2
-	why := "expected: panicMode = false; for !checkEnd() { switch current.typ { case …: return }; advance() }"
-	var set []string
-	if ok {
-		as, isA := fd.Body.List[0].(*ast.AssignStmt)
-		ok = isA && len(as.Lhs) == 1 && c.fieldPath(as.Lhs[0]) == "<parser>.panicMode"
-		if ok {
-			v := c.constOf(as.Rhs[0])
-			ok = v != nil && v.ExactString() == "false"
-		}
-		loop, isL := fd.Body.List[1].(*ast.ForStmt)
-		ok = ok && isL && loop.Init == nil && loop.Post == nil && len(loop.Body.List) == 2
-		if ok {
-			// cond: !p.checkEnd()
-			ue, isU := stripParens(loop.Cond).(*ast.UnaryExpr)
-			ok = isU && ue.Op == token.NOT
-			if ok {
-				call, isC := stripParens(ue.X).(*ast.CallExpr)
-				ok = isC && c.calleeName(call) == "parser.checkEnd"
-			}
-		}
-		if ok {
-			sw, isS := loop.Body.List[0].(*ast.SwitchStmt)
-			ok = isS && sw.Tag != nil && c.fieldPath(sw.Tag) == "<parser>.current.typ"
-			if ok {
-				toks := constsOfType(c.Bcl, "tokenType")
-				for _, a := range c.switchArms(sw) {
-					isRet := len(a.Body) == 1
-					if isRet {
-						rs, isR := a.Body[0].(*ast.ReturnStmt)
-						isRet = isR && len(rs.Results) == 0
-					}
-					if a.Default || !isRet {
-						ok = false
-						why = "the token test may only return (without consuming) on the listed tokens"
-					}
-					for _, e := range a.Exprs {
-						if v, isC := c.intConst(e); isC {
-							set = append(set, constNameOf(toks, v))
-						}
-					}
-				}
-			}
-			es, isE := loop.Body.List[1].(*ast.ExprStmt)
-			if ok && isE {
-				call, isC := es.X.(*ast.CallExpr)
-				ok = isC && c.calleeName(call) == "parser.advance"
-			} else {
-				ok = false
-			}
+	tab, err := c.syncModel()
+	if err != nil {
+		r.bad(rule, "sync", err.Error(), "")
+		return
+	}
+	for _, u := range tab.Undecided {
+		r.undecided(rule, "sync/model", u, c.pos(fd.Pos()))
+	}
+	r.check(tab.ClearsPanic && len(tab.Spins) == 0, rule, "shape", "clears panic mode, then per token either stops without consuming it or consumes it", fmt.Sprintf("sync: panic mode cleared before the scan: %v; tokens on which an iteration neither consumes the token nor ends the scan: %v", tab.ClearsPanic, tab.Spins), c.pos(fd.Pos()))
+	// the tokens at which the scan stops: end-of-input tokens (typ <= tEOF) and the documented statement starters
+	toks := constsOfType(c.Bcl, "tokenType")
+	eofVal := int64(-1)
+	for _, t := range toks {
+		if t.Name == "tEOF" {
+			eofVal = t.Val
 		}
 	}
-	r.check(ok, rule, "shape", "test the current token, then advance", "sync: "+why, c.pos(fd.Pos()))
 	var want []string
+	for _, t := range toks {
+		if t.Val <= eofVal {
+			want = append(want, t.Name)
+		}
+	}
 	for _, kw := range spec.SyncSet {
 		want = append(want, lt.Keywords[kw])
 	}
 	sort.Strings(want)
-	sort.Strings(set)
-	r.check(strings.Join(set, ",") == strings.Join(want, ","), rule, "set", strings.Join(want, ","), fmt.Sprintf("sync stops at %v; documented statement starters: %v", set, want), c.pos(fd.Pos()))
-	// decl calls sync under panicMode && depth == 0
+	set := tab.Stops
+	r.check(strings.Join(set, ",") == strings.Join(want, ","), rule, "set", strings.Join(want, ","), fmt.Sprintf("sync stops at %v; documented: end of input and the statement starters %v", set, want), c.pos(fd.Pos()))
+	// decl calls sync under panicMode && depth == 0 (however the two tests are nested)
 	if _, dd := c.find("decl"); dd != nil {
-		okCall := false
-		n := len(dd.Body.List)
-		if n >= 1 {
-			if ifs, isIf := dd.Body.List[n-1].(*ast.IfStmt); isIf && len(ifs.Body.List) == 1 {
-				be, isB := stripParens(ifs.Cond).(*ast.BinaryExpr)
-				if isB && be.Op == token.LAND && c.fieldPath(be.X) == "<parser>.panicMode" {
-					if d, isD := stripParens(be.Y).(*ast.BinaryExpr); isD && c.fieldPath(d.X) == "<parser>.scope.depth" && d.Op == token.EQL {
-						if k, isC := c.intConst(d.Y); isC && k == 0 {
-							if es, isE := ifs.Body.List[0].(*ast.ExprStmt); isE {
-								if call, isC := es.X.(*ast.CallExpr); isC && c.calleeName(call) == "parser.sync" {
-									okCall = true
-								}
-							}
-						}
-					}
+		r.check(c.declResyncs(dd), rule, "decl", "sync() under panicMode && depth == 0, after the statement", "decl must call p.sync() exactly when it ends in panic mode at depth 0", c.pos(dd.Pos()))
+	}
+}
+
+// declResyncs: decl has a call of sync() dominated by the facts panicMode and
+// scope.depth == 0 (and by nothing else), after the statement dispatch.
+func (c *Ctx) declResyncs(dd *ast.FuncDecl) bool {
+	ok := false
+	ast.Inspect(dd.Body, func(n ast.Node) bool {
+		call, isC := n.(*ast.CallExpr)
+		if !isC || c.calleeName(call) != "parser.sync" {
+			return true
+		}
+		panicOK, depthOK, other := false, false, 0
+		for _, f := range splitFacts(c.factsAt(dd.Body, call)) {
+			a := condAtom{E: stripParens(f.Cond), Pos: f.Pos, Init: f.Init}
+			if c.fieldPath(a.E) == "<parser>.panicMode" && a.Pos {
+				panicOK = true
+				continue
+			}
+			if b, isB := c.boundOf(a); isB && c.fieldPath(b.X) == "<parser>.scope.depth" {
+				if (b.Lo != nil && b.Hi != nil && *b.Lo == 0 && *b.Hi == 0) || (b.Hi != nil && *b.Hi == 0 && b.Lo == nil) {
+					depthOK = true
+					continue
 				}
 			}
+			other++
 		}
-		r.check(okCall, rule, "decl", "if panicMode && depth == 0 { sync() } as the last step of decl", "decl must end with `if p.panicMode && p.scope.depth == 0 { p.sync() }`", c.pos(dd.Pos()))
-	}
+		if panicOK && depthOK && other == 0 {
+			ok = true
+		}
+		return true
+	})
+	return ok
 }
 
 // ruleAssignTarget: a leftover '=' after an assignable expression is an error.
